@@ -293,6 +293,8 @@ def run(cx):
     from props.shared import clock_exact, socket_drain
     clock_exact(cx, "C10.o")
     socket_drain(cx, "C10.p")
+    from props.shared import insert_only_absent
+    insert_only_absent(cx, "C10.q")
     from props.shared import active_timeout_sweep
     active_timeout_sweep(cx, "C10.k")
     # the keepalive cadence is max(rto, 2000 ms) and the RTO is 2*MSS/X when the rate is low: a rate computed from an
